@@ -666,6 +666,16 @@ theorem bad_descriptor_completes_exactly_once :
         (if e.2.1 = "ev" then Gen.dontBlockEvReturnsOnError else Gen.dontBlockIoReturnsOnError) e.2.2.1 br = 1 := by
   decide
 
+/-- **Every path through a completion functor completes once**: regenerated from `stream_socket.cpp` /
+`acceptor.cpp` (`reader_some`, `writer_some`, `async_connector`, `reader_all`/`writer_all` incl. their `run()`,
+`async_acceptor`): on every path through the if/else tree with its early returns, the user's handler is called (or
+posted) exactly once and nothing is re-armed, or exactly one wait is re-armed / the continuation restarted once and
+the handler is not called — never both, never twice, never neither. -/
+theorem completion_functor_paths_complete_once :
+    (∀ f ∈ Gen.functorPaths, f.2 ≠ [] ∧ ∀ p ∈ f.2, (p.1 = 1 ∧ p.2 = 0) ∨ (p.1 = 0 ∧ p.2 = 1)) ∧
+    Gen.functorPaths.length = 8 := by
+  decide
+
 /-! ## exactly once, if the loop keeps running -/
 
 /-- **Exactly once under fairness.**  Take any reachable state in which the loop has not been stopped and a
